@@ -367,6 +367,12 @@ func (p *Parser) parseVar() ast.Node {
 	idents := []*ast.Ident{ast.NewIdent(p.curToken)}
 	for p.peekTokenIs(token.COMMA) {
 		p.nextToken()
+		// The line may be broken after the comma
+		for p.peekTokenIs(token.NEWLINE) {
+			if err := p.nextToken(); err != nil {
+				return nil
+			}
+		}
 		if !p.expectPeek("var statement", token.IDENT) {
 			return nil
 		}
@@ -391,6 +397,12 @@ func (p *Parser) parseDeclaration() ast.Node {
 	idents := []*ast.Ident{ast.NewIdent(p.curToken)}
 	for p.peekTokenIs(token.COMMA) {
 		p.nextToken()
+		// The line may be broken after the comma
+		for p.peekTokenIs(token.NEWLINE) {
+			if err := p.nextToken(); err != nil {
+				return nil
+			}
+		}
 		if !p.expectPeek("declaration statement", token.IDENT) {
 			return nil
 		}
@@ -675,6 +687,8 @@ func (p *Parser) parseSwitch() ast.Node {
 			for p.peekTokenIs(token.COMMA) {
 				p.nextToken() // move to the comma
 				p.nextToken() // move to the following expression
+				// The line may be broken after the comma
+				p.eatNewlines()
 				caseExpr := p.parseExpression(LOWEST)
 				if caseExpr == nil {
 					p.setTokenError(p.curToken, "invalid syntax in case expression")
@@ -981,6 +995,12 @@ func (p *Parser) parseFromImport() ast.Node {
 	}
 
 	if isGrouped {
+		// The line may be broken before the closing parenthesis
+		for p.peekTokenIs(token.NEWLINE) {
+			if err := p.nextToken(); err != nil {
+				return nil
+			}
+		}
 		if !p.expectPeek("a from-import statement", token.RPAREN) {
 			return nil
 		}
@@ -1156,6 +1176,8 @@ func (p *Parser) parseFor() ast.Node {
 		variable := ast.NewIdent(p.curToken)
 		p.nextToken() // Move to 'in'
 		p.nextToken() // Move past 'in'
+		// The line may be broken after it, as after the operator
+		p.eatNewlines()
 
 		// Parse the iterable expression
 		iterable := p.parseExpression(LOWEST)
@@ -1321,6 +1343,9 @@ func (p *Parser) parseFuncParams() (map[string]ast.Expression, []*ast.Ident) {
 	defaults := map[string]ast.Expression{}
 	params := make([]*ast.Ident, 0)
 	p.nextToken()
+	// The line may be broken after the opening parenthesis, after a comma
+	// and before the closing parenthesis, as in a list of arguments
+	p.eatNewlines()
 	for !p.curTokenIs(token.RPAREN) { // Keep going until we find a ")"
 		if p.curTokenIs(token.EOF) {
 			p.setTokenError(p.prevToken, "unterminated function parameters")
@@ -1348,6 +1373,7 @@ func (p *Parser) parseFuncParams() (map[string]ast.Expression, []*ast.Ident) {
 		if p.curTokenIs(token.COMMA) {
 			p.nextToken()
 		}
+		p.eatNewlines()
 	}
 	return defaults, params
 }
@@ -1847,6 +1873,12 @@ func (p *Parser) parseMapOrSet() ast.Node {
 		return ast.NewMap(firstToken, pairs)
 	} else { // This is a set
 		items := []ast.Expression{firstKey}
+		// The line may be broken before the closing brace
+		for p.peekTokenIs(token.NEWLINE) {
+			if err := p.nextToken(); err != nil {
+				return nil
+			}
+		}
 		if p.peekTokenIs(token.COMMA) {
 			p.nextToken()
 		} else if p.peekTokenIs(token.RBRACE) {
